@@ -40,6 +40,7 @@ var extractors = []extractor{
 	{"UnifyID", genUnifyID},
 	{"WireFacts", genWireFacts},
 	{"ClientReq", genClientReq},
+	{"WireToken", genWireToken},
 }
 
 func main() {
